@@ -40,6 +40,7 @@ func init() {
 
 const (
 	singleCaseTimeout = 180 * time.Second
+	singleCaseCPU     = 60 * time.Second // processor time; normal cases need milliseconds
 	batchTimeout      = 15 * time.Minute
 )
 
@@ -92,7 +93,7 @@ func RunC12(c *lib.Ctx) {
 		"Go's encoding/json is the decoder of record (the client uses it); answers it rejects count as 'decoder-rejected'/'error'",
 		"the verifier's own inputs (its digest/event, the snapshots it passes to *Verify) are well-formed; only server / snapshot-store bytes are hostile",
 		"answers above 8 MiB are a transport limit, not generated",
-		"'loops' = a single case not returning within 180 s alone in a child (normal cases take < 1 ms); 'exhausts memory' = > 256 MiB allocated by one entry point for one answer, or death under a 4 GiB address-space limit",
+		"'loops' = a single case, alone in a child, consuming 60 s of CPU time (or 180 s of wall time) without returning (normal cases take about 1 ms); 'exhausts memory' = > 256 MiB allocated by one entry point for one answer, or death under a 4 GiB address-space limit",
 		"`true` results are not judged here (soundness is C02)",
 	}
 	run := &c12run{c: c, thorough: "0", confirmedKeys: map[string]bool{}}
@@ -233,13 +234,14 @@ func (run *c12run) checkGenuine() {
 type childOutcome struct {
 	exit     int
 	timedOut bool
+	budget   string
 	res      *batchResult
 	progIdx  int
 	progStg  string
 	stderr   string
 }
 
-func (run *c12run) spawn(worker string, from, to int, watchdog bool, timeout time.Duration) childOutcome {
+func (run *c12run) spawn(worker string, from, to int, watchdog bool, timeout, cpuBudget time.Duration) childOutcome {
 	run.mu.Lock()
 	run.seq++
 	id := run.seq
@@ -281,7 +283,8 @@ func (run *c12run) spawn(worker string, from, to int, watchdog bool, timeout tim
 				out.exit = -1
 			}
 		}
-	case <-time.After(timeout):
+	case why := <-run.overBudget(cmd.Process.Pid, timeout, cpuBudget, done):
+		out.budget = why
 		cmd.Process.Signal(syscall.SIGQUIT) // stacks to stderr
 		select {
 		case <-done:
@@ -300,7 +303,9 @@ func (run *c12run) spawn(worker string, from, to int, watchdog bool, timeout tim
 		}
 	}
 	if buf, err := ioutil.ReadFile(progF); err == nil && len(buf) >= 16 {
-		out.progIdx = int(binary.LittleEndian.Uint64(buf[0:8]))
+		if v := binary.LittleEndian.Uint64(buf[0:8]); v < 1<<40 {
+			out.progIdx = int(v)
+		}
 		if s := binary.LittleEndian.Uint64(buf[8:16]); s < uint64(len(stageNames)) {
 			out.progStg = stageNames[s]
 		}
@@ -317,6 +322,53 @@ func (run *c12run) spawn(worker string, from, to int, watchdog bool, timeout tim
 	return out
 }
 
+// overBudget fires when the child has been running for `wall`, or (cpu > 0) has consumed more than
+// `cpu` of processor time (user+system, all threads; read from /proc): a verifier that loops burns
+// CPU, so this bound does not depend on how loaded the machine is.
+func (run *c12run) overBudget(pid int, wall, cpu time.Duration, done <-chan error) <-chan string {
+	ch := make(chan string, 1)
+	go func() {
+		start := time.Now()
+		for {
+			time.Sleep(500 * time.Millisecond)
+			if len(done) > 0 {
+				return
+			}
+			if time.Since(start) > wall {
+				ch <- fmt.Sprintf("still running after %v", wall)
+				return
+			}
+			if cpu > 0 {
+				if used, ok := procCPU(pid); ok && used > cpu {
+					ch <- fmt.Sprintf("consumed %v of CPU without returning", used.Round(time.Second))
+					return
+				}
+			}
+		}
+	}()
+	return ch
+}
+
+func procCPU(pid int) (time.Duration, bool) {
+	buf, err := ioutil.ReadFile(fmt.Sprintf("/proc/%d/stat", pid))
+	if err != nil {
+		return 0, false
+	}
+	s := string(buf)
+	i := strings.LastIndex(s, ")") // comm may contain spaces
+	if i < 0 {
+		return 0, false
+	}
+	f := strings.Fields(s[i+1:])
+	if len(f) < 13 {
+		return 0, false
+	}
+	var ut, st int64
+	fmt.Sscan(f[11], &ut)                                   // utime  (field 14)
+	fmt.Sscan(f[12], &st)                                   // stime  (field 15)
+	return time.Duration(ut+st) * (time.Second / 100), true // USER_HZ = 100 on linux
+}
+
 func (run *c12run) requeue(js ...c12job) {
 	run.mu.Lock()
 	for _, j := range js {
@@ -330,7 +382,7 @@ func (run *c12run) requeue(js ...c12job) {
 
 func (run *c12run) batch(j c12job) {
 	c := run.c
-	o := run.spawn("c12-batch", j.from, j.to, true, batchTimeout)
+	o := run.spawn("c12-batch", j.from, j.to, true, batchTimeout, 0)
 	c.Count("child_batches", 1)
 	switch {
 	case o.exit == 0 && o.res != nil && o.res.Done == j.to-j.from:
@@ -376,7 +428,7 @@ func (run *c12run) single(idx int, why string) {
 		run.mu.Unlock()
 	}
 	t0 := time.Now()
-	o := run.spawn("c12-case", idx, idx+1, false, singleCaseTimeout)
+	o := run.spawn("c12-case", idx, idx+1, false, singleCaseTimeout, singleCaseCPU)
 	c.Count("child_single_case_runs", 1)
 	if why != "replay" {
 		c.Seen("cases_rerun_alone", fmt.Sprintf("case %d (%s, %s: %s) because %s; alone: exit %d after %.1fs", idx, hc.Target, hc.Gen, oneLine(hc.Desc+" / "+hc.StoreDesc, 200), why, o.exit, time.Since(t0).Seconds()))
@@ -396,7 +448,7 @@ func (run *c12run) single(idx int, why string) {
 		confirmed("C12:" + stage + ":no-return")
 		c.Case(hc.Target+"|"+hc.Gen+"|no-return", true)
 		c.Violation("C12:"+stage+":no-return",
-			fmt.Sprintf("case %s (%s, %s: %s): %s does not return: alone in a child it was still running after %v (first seen: %s)", hc.ID, hc.Target, hc.Gen, hc.Desc, stage, singleCaseTimeout, why),
+			fmt.Sprintf("case %s (%s, %s: %s): %s does not return: alone in a child it %s (first seen: %s)", hc.ID, hc.Target, hc.Gen, hc.Desc, stage, o.budget, why),
 			c12detail{ID: hc.ID, Stage: stage, Case: dump(run.cp, hc), Stderr: tail(o.stderr, 6000), Comment: "loops"})
 	default:
 		c.Count("cases_run", 1)
